@@ -841,6 +841,17 @@ func TestVerifC11(t *testing.T) {
 		[]string{"probe:0", "down:0", "probe:0", "conn", "up:0", "probe:0", "conn", "close:0", "close:0", "probe:1"})
 	addHist(vHSpec{topo: [][]bool{{true}}, passive: false, tryDur: 0, policy: "first"},
 		[]string{"down:0", "probe:0", "probe:0", "conn", "up:0", "conn", "probe:0", "conn", "close:0"})
+	// 2b. active and passive checks together: an outage with remembered dial failures, the active check
+	// marks the peer down and, while the failures are still remembered, up again; then the failures
+	// expire; then a second outage must take the upstream out of rotation again after max_fails failures
+	for _, fd := range []int{600, 900} {
+		for _, mf := range []int{1, 2} {
+			spec := vHSpec{topo: [][]bool{{true}, {true}}, passive: true, failDur: time.Duration(fd) * ms, maxFails: mf, tryDur: 100 * ms, tryInt: 30 * ms, policy: "first"}
+			addHist(spec, []string{"down:0", "conn", "probe:0", "up:0", "probe:0", "expire", "probe:0", "down:0", "conn", "conn", "close:0", "close:0", "expire"})
+		}
+	}
+	addHist(vHSpec{topo: [][]bool{{true}}, passive: true, failDur: 700 * ms, maxFails: 3, tryDur: 0, policy: "first"},
+		[]string{"down:0", "conn", "conn", "probe:0", "up:0", "probe:0", "conn", "close:0", "expire", "down:0", "conn", "conn", "conn", "conn", "expire"})
 	// 3. an upstream with two peers: the second one refuses
 	addHist(vHSpec{topo: [][]bool{{true, false}, {true}}, passive: true, failDur: 300 * ms, maxFails: 2, tryDur: 150 * ms, tryInt: 30 * ms, policy: "first"},
 		[]string{"conn", "expire", "up:1", "conn", "close:0", "close:0"})
@@ -892,6 +903,12 @@ func TestVerifC11(t *testing.T) {
 			default:
 				script = append(script, fmt.Sprintf("sleep:%d", 30+rng.Intn(120)))
 			}
+		}
+		if spec.passive && rng.Intn(3) == 0 {
+			// an outage seen by both kinds of check, recovery noticed by the active one first
+			p := rng.Intn(np)
+			spec.failDur = time.Duration(500+100*rng.Intn(4)) * ms
+			script = append(script, fmt.Sprintf("down:%d", p), "conn", fmt.Sprintf("probe:%d", p), fmt.Sprintf("up:%d", p), fmt.Sprintf("probe:%d", p), "expire", fmt.Sprintf("down:%d", p), "conn", "conn")
 		}
 		addHist(spec, script)
 	}
